@@ -1,6 +1,6 @@
 import H2V.Model.HpackEnc
 import H2V.Spec.Hpack
-import H2V.Props.C10
+import H2V.Props.C10Tables
 import H2V.Lemmas.HpackEncTable
 /-
   C10, part 3 — `Table::index`: the index it hands to `encode_header` denotes, in the table as it
